@@ -707,6 +707,21 @@ class FactoryOracle:
         sx.last_edge = edge.id
         self.events.append((now, "put", edge.id, sx.iid))
         mon.counters["factory_puts"] += 1
+        # C18: the stamps of an item that leaves a node follow its route: entry into this node not older than the
+        # instant the node took it, exit from this node not older than that entry
+        ex, en = getattr(x, "timestamp_node_exit", None), getattr(x, "timestamp_node_entry", None)
+        typ = L.type if L else "?"
+        if L is not None:
+            mon.counters["c18_stamps_at_departure_checked"] += 1
+            if L.type != "source":
+                u0 = L.by_item.get(id(x))
+                if u0 is not None and getattr(u0, "x", None) is x and getattr(u0, "t_in", None) is not None:
+                    if en is None or en < u0.t_in - 1e-9:
+                        mon.violation("C18", "timestamps", f"{typ}:item-leaves-the-node-with-an-entry-stamp-older-than-its-arrival-there",
+                                      {"node": nid, "item": sx.iid, "entry_stamp": en, "arrived": u0.t_in, "now": now})
+            if en is not None and (ex is None or ex < en - 1e-9):
+                mon.violation("C18", "timestamps", f"{typ}:item-leaves-the-node-with-an-exit-stamp-older-than-its-entry-stamp",
+                              {"node": nid, "item": sx.iid, "entry_stamp": en, "exit_stamp": ex, "now": now})
         if L is None:
             return
         idx = self.edge_idx_out.get(id(edge))
